@@ -97,6 +97,9 @@ func CachedBlockstore(
 
 	if opts.HasTwoQueueCacheSize > 0 {
 		cbs, err = newTwoQueueCachedBS(ctx, cbs, opts.HasTwoQueueCacheSize)
+		if err != nil {
+			return nil, err
+		}
 	}
 	if opts.HasBloomFilterSize != 0 {
 		// *8 because of bytes to bits conversion
